@@ -234,6 +234,9 @@ def c04(tier):
     c = Check("C04", tier, "model_checking")
     directive_tree_mc(c, tier)
     r = c.mc("MC_Lexer", "MC_Lexer_gen3.cfg", workers=8, timeout=1800)      # the scanner's progress property ([][pos' > pos])
+    # every literal of the literal machine (bodies over blanks of one, two and three bytes, quotes, breaks) through the
+    # real re-indentation: an abort there is a C04 violation
+    mlstring_mc_and_replay(c, tier)
     props = ["C04", "C15"]       # cursor lists are part of C04's quantifier; C15 makes the harness pass them
     for vh, label in ((VH, "release"), (VH_CHECKED, "checked")):
         tasks, n2 = soup_tasks("full", 2, "six")
@@ -278,6 +281,28 @@ def c04(tier):
                 site = " [site: more than 4000 nested constructs]" if n > 4000 else ""
                 c.add_violation({"prop": "C04", "clause": "abort" if rc != -999 else "hang", "detail": f"{n} nested `{shape}` constructs: exit status {rc}: {' '.join(err.split())[-140:]}{site}",
                                  "case": {"label": f"deep:{shape}:{n}", "text": mk(n)[:200]}, "confirmed_by_tlc": True})
+    # very LONG flat lists (work and stack must not grow with the number of siblings): release binary and the harness
+    # binary built with debug assertions (no tail-call elimination there)
+    flat = (("statements", lambda n: "begin\n" + "x;\n" * n + "end.\n"), ("assignments", lambda n: "begin " + "a := 1; " * n + "end.\n"),
+            ("declarations", lambda n: "var\n" + "".join(f"  a{k}: T;\n" for k in range(n))), ("routines", lambda n: "procedure p; begin end;\n" * n),
+            ("case arms", lambda n: "begin case x of " + "".join(f"{k}: y; " for k in range(n)) + "end end.\n"), ("fields", lambda n: "type T = record " + "".join(f"f{k}: I; " for k in range(n)) + "end;\n"),
+            ("uses", lambda n: "uses " + ", ".join(f"u{k}" for k in range(n)) + ";\n"), ("arguments", lambda n: "begin f(" + ", ".join("1" for k in range(n)) + "); end.\n"),
+            ("sections", lambda n: "{$ifdef A}x;{$endif}\n" * n), ("consts", lambda n: "const\n" + "".join(f"  c{k} = {k};\n" for k in range(n))))
+    for shape, mk in flat:
+        for n in Q(tier, [60000, 150000], [60000, 150000, 400000]):
+            if shape in ("arguments", "uses") and n > 60000:
+                continue        # (one logical line: the optimiser's budget per line applies, the cost is that of `scaled`)
+            for binary, how in (([PASFMT], "release"), ([VH_CHECKED, "fmt", "{}"], "checked")):
+                try:
+                    r = sp.run(binary, input=mk(n).encode(), stdout=sp.PIPE, stderr=sp.PIPE, cwd=cli.CLI_ROOT, timeout=Q(tier, 300, 900))
+                    rc, err = r.returncode, r.stderr[-160:].decode(errors="replace")
+                except sp.TimeoutExpired:
+                    rc, err = -999, "timeout"
+                c.evaluations += 1
+                c.nontrivial += 1
+                if rc != 0:
+                    c.add_violation({"prop": "C04", "clause": "abort" if rc != -999 else "hang", "detail": f"a flat list of {n} {shape} ({how} build): exit status {rc}: {' '.join(err.split())[-140:]}",
+                                     "case": {"label": f"flat:{shape}:{n}:{how}", "text": mk(n)[:200]}, "confirmed_by_tlc": True})
     c.exhaustive = True
     return c.finish(
         rule="every sequence of <= 2 tokens over the full alphabet of Soup.tla and <= 3 over the structural one (thorough: 3 / 4), x 2 separators, "
